@@ -712,6 +712,26 @@ func randomHistory(r *rand.Rand, useDao bool, nsteps, reads int) []Op {
 	for i := 0; i < 3; i++ {
 		g.key()
 	}
+	if useDao && r.Intn(3) == 0 {
+		// one contract with many items that reach the BACKEND before they are iterated: the lower scan of a range
+		// read is lazy there, so what happens between two delivered items (point reads of the iterating contract,
+		// see the reads) meets a scan in progress
+		base := append([]byte{0x70}, g.daoID...)
+		if r.Intn(2) == 0 {
+			base = append(base, g.pick(alphabet, 5))
+		}
+		n := 6 + r.Intn(7)
+		for i := 0; i < n; i++ {
+			k := append(append([]byte{}, base...), byte(0x10+i*7))
+			if r.Intn(3) == 0 {
+				k = append(k, g.pick(alphabet, 5))
+			}
+			g.pool = append(g.pool, k)
+			g.ops = append(g.ops, Op{Op: "put", At: g.top(), Key: ints(k), Val: g.val()})
+		}
+		g.ops = append(g.ops, Op{Op: "persist", At: 1, Kind: "persist"})
+		g.readOps(reads)
+	}
 	for s := 0; s < nsteps; s++ {
 		top := g.top()
 		switch x := r.Intn(100); {
